@@ -36,11 +36,11 @@
      "fn"    all sequences of <= MaxLen events on one function name f
      "graph" N static inline functions: every reference digraph x every root
              assignment {none, global function, initializer before all
-             definitions, initializer right after the own definition,
-             initializer after all definitions}                            *)
+             definitions, initializer right after the own definition (if
+             InitAfterOwn), initializer after all definitions}             *)
 EXTENDS Integers, Sequences, FiniteSets, TLC, Json, CSV, IOUtils, SequencesExt
 
-CONSTANTS Mode, MaxLen, N, SelfLoops, Fixed, Emit
+CONSTANTS Mode, MaxLen, N, SelfLoops, InitAfterOwn, Fixed, Emit
 
 Mx(a, b) == IF a > b THEN a ELSE b
 
@@ -203,14 +203,15 @@ JudgedFn(s) == \A n \in FNames(s) :
    one, are both allowed by 6.7.4p7: gcc does the latter, chibicc the former).
    "optlocal": an unreferenced internal function that is not declared inline on
    every declaration may or may not be emitted (gcc -O0 keeps `static` ones).   *)
-RowFnA(s, n) ==
+RowFnA2(s, n, reach) ==
   IF ExtDef(s, n) THEN DefRow("GLOBAL", "FUNC", "text", 0, 0)
   ELSE IF ~InternalFn(s, n) /\ HasDef(s, n) THEN [None EXCEPT !.st = "nonglobal"]
-  ELSE IF ~InternalFn(s, n) THEN (IF n \in ReachA(s) THEN Und ELSE None)
-  ELSE IF HasDef(s, n) THEN (IF n \in ReachA(s) THEN DefRow("LOCAL", "FUNC", "text", 0, 0)
+  ELSE IF ~InternalFn(s, n) THEN (IF n \in reach THEN Und ELSE None)
+  ELSE IF HasDef(s, n) THEN (IF n \in reach THEN DefRow("LOCAL", "FUNC", "text", 0, 0)
                              ELSE IF AllInline(s, n) THEN None
                              ELSE [None EXCEPT !.st = "optlocal"])
   ELSE None
+RowFnA(s, n) == RowFnA2(s, n, ReachA(s))
 
 Match(i, a) == CASE a.st \in {"nonglobal"} -> i.st \in {"none", "und"} \/ (i.st = "def" /\ i.bind = "LOCAL")
                  [] a.st = "optlocal"     -> i.st = "none" \/ (i.st = "def" /\ i.bind = "LOCAL")
@@ -252,7 +253,8 @@ RowFnI(n) == IF n \in EmittedI THEN DefRow(IF fns[n].static THEN "LOCAL" ELSE "G
 Case(s) == [mode |-> Mode, fcommon |-> fcommon, ty |-> ty.id, tls |-> tls, es |-> s,
             objrow |-> IF Mode = "obj" THEN RowObjA(s) ELSE None,
             anon |-> IF Mode = "obj" THEN AnonA(s) ELSE <<>>,
-            fnrows |-> { [name |-> n, row |-> RowFnA(s, n), known |-> KnownInlineExt(s, n)] : n \in FNames(s) }]
+            fnrows |-> LET reach == ReachA(s)
+                       IN { [name |-> n, row |-> RowFnA2(s, n, reach), known |-> KnownInlineExt(s, n)] : n \in FNames(s) }]
 Out(s) == (Emit /\ JudgedFn(s)) => CSVWrite("%1$s", <<ToJson(Case(s))>>, IOEnv.OUT)
 
 StepObj(e) == /\ es' = Append(es, e)
@@ -284,7 +286,7 @@ GraphNext ==
      /\ \E C \in Callees(st.d + 1) :
           StepFn(FnE(S(st.d + 1), "static", TRUE, TRUE, {S(j) : j \in C}),
                  [st EXCEPT !.ph = "def", !.d = @ + 1, !.c = 1, !.fresh = TRUE])
-  \/ /\ st.ph = "def" /\ st.fresh /\ st.d \notin st.rooted      \* initializer right after the own definition
+  \/ /\ InitAfterOwn /\ st.ph = "def" /\ st.fresh /\ st.d \notin st.rooted      \* initializer right after the own definition
      /\ StepFn(InitE(S(st.d)), [st EXCEPT !.fresh = FALSE, !.rooted = @ \cup {st.d}])
   \/ /\ st.ph = "def" /\ st.d = N             \* initializer after all definitions
      /\ \E j \in st.c..N : /\ j \notin st.rooted /\ ~(st.fresh /\ j = N)
@@ -315,12 +317,18 @@ RowsAgree(i, a) == /\ [i EXCEPT !.align = 0] = [a EXCEPT !.align = 0]
                    /\ a.sect = "common" => i.align = a.align
                    /\ a.st = "def" => i.align % a.align = 0
 ObjRefines == Mode = "obj" => (RowsAgree(RowObjI, RowObjA(es)) /\ AnonI = AnonA(es))
-FnRefines  == JudgedFn(es) => \A n \in FNames(es) : KnownInlineExt(es, n) \/ Match(RowFnI(n), RowFnA(es, n))
+FnRefines  == JudgedFn(es) =>
+                LET reach == ReachA(es)              \* evaluated once per state
+                    live  == LiveI
+                    emit  == { n \in DOMAIN fns : fns[n].def /\ n \in live }
+                    refd  == inits \cup UNION { Body(es, n) : n \in emit }
+                    rowI(n) == IF n \in emit THEN DefRow(IF fns[n].static THEN "LOCAL" ELSE "GLOBAL", "FUNC", "text", 0, 0)
+                               ELSE IF n \in refd THEN Und ELSE None
+                IN \A n \in FNames(es) : KnownInlineExt(es, n) \/ Match(rowI(n), RowFnA2(es, n, reach))
 (* sanity of Level A: a symbol is common only under -fcommon, never when
    initialised, internal or thread-local; internal <=> LOCAL *)
 AWellFormed ==
   LET r == RowObjA(es) IN
   /\ r.sect = "common" => (fcommon /\ ~tls /\ r.bind = "GLOBAL" /\ ~HasInit(es))
   /\ r.st = "def" => (r.bind = "LOCAL") = InternalObj(es)
-  /\ \A n \in FNames(es) : RowFnA(es, n).st = "def" => HasDef(es, n)
 =============================================================================
